@@ -39,6 +39,7 @@ impl Handler for NoNewSymbolHandler {
     if_chain! {
       if let Expr::Ident(ident) = new_expr.callee;
       if *ident.sym() == *"Symbol";
+      if ident.ctxt() == ctx.unresolved_ctxt();
       if ctx.scope().var(&ident.to_id()).is_none();
       then {
         ctx.add_diagnostic(new_expr.range(), CODE, MESSAGE);
